@@ -282,9 +282,9 @@ func cmdCheck(args []string) {
 		problems[fn] = append(problems[fn], o.Name)
 		if strings.HasPrefix(fn, "lemma:") || strings.HasPrefix(fn, "frame:") {
 			hard[fn] = true
-		} else if structuralObligation(o.Name) {
-			broken[fn] = true
-		} else {
+		} else if taintingObligation(o.Name) {
+			broken[fn] = true // a loop invariant no longer fits: everything derived after the loop is meaningless
+		} else if !structuralObligation(o.Name) {
 			hard[fn] = true
 		}
 	}
@@ -309,6 +309,29 @@ func cmdCheck(args []string) {
 		fns = append(fns, fn)
 	}
 	sort.Strings(fns)
+	if *tier == "thorough" {
+		// thorough: every registered fallback also runs on the tree as it is (it must agree with the proofs)
+		for _, fb := range cfg.Fallbacks {
+			if fallbackRan[fb.Name] != nil {
+				continue
+			}
+			t := time.Now()
+			out, failed := runReplay(*verif, *repo, fb.ReplaySpec)
+			r := &boundedResult{spec: BoundedSpec{ReplaySpec: fb.ReplaySpec, Bound: fb.Bound}, out: out, failed: failed, wallS: time.Since(t).Seconds()}
+			fallbackRan[fb.Name] = r
+			res := "held on every case within the bound"
+			if failed {
+				res = "failed"
+				os.MkdirAll(replayDir, 0o755)
+				file := filepath.Join(replayDir, "fallback."+sanitize(fb.Name)+".json")
+				writeJSON(file, map[string]interface{}{"property": *prop, "fallback": fb, "replayed": true, "failing_input": firstViolationLine(out), "observed": truncate(out, 8000)})
+				fmt.Printf("VIOLATION property=%s replay=%s fallback-run=%s (real code run: test %s fails: %s)\n", *prop, file, fb.Name, fb.Test, firstViolationLine(out))
+			} else if !strings.Contains(out, "ok  \t") {
+				res = "could not run"
+			}
+			fallbackEv = append(fallbackEv, map[string]interface{}{"name": fb.Name, "label": "bounded", "covers": fb.Covers, "bound": fb.Bound, "what": fb.What, "result": res, "wall_s": r.wallS, "run": "thorough tier (unconditional)"})
+		}
+	}
 	for _, fn := range fns {
 		if hard[fn] {
 			continue
@@ -415,7 +438,7 @@ func cmdCheck(args []string) {
 	// property are run against the real code: a failing replay is a violation with a
 	// concrete failing scenario.
 	replaysRun, replaysFailed := 0, 0
-	if violations > 0 || len(undecided) > 0 {
+	if violations > 0 || len(undecided) > 0 || *tier == "thorough" {
 		for _, rp := range cfg.Replays {
 			replaysRun++
 			out, failed := runReplay(*verif, *repo, rp)
@@ -508,6 +531,13 @@ func cmdCheck(args []string) {
 }
 
 var structuralRe = regexp.MustCompile(`^(loop[$0-9]+\.(entry|preserved|frame)|loop[$0-9]+\.[a-z]+\..*|hint\.|(ensures|check)\.impl_|smoke\.|vacuity\.)`)
+
+var taintRe = regexp.MustCompile(`^loop[$0-9]+\.`)
+
+// taintingObligation: a failed loop obligation (invariant on entry / preserved / loop frame).
+func taintingObligation(name string) bool {
+	return taintRe.MatchString(name[strings.LastIndex(name, "/")+1:])
+}
 
 // structuralObligation: an obligation that carries the proof, not the property.
 func structuralObligation(name string) bool {
